@@ -54,6 +54,8 @@ CORPORA = {
                           family="grpcwrap", trace="GrpcWrapTrace.tla", tracecfg="GrpcWrapTrace.cfg", harness_env={"VERIF_GRPC_JSON": "1"}),
     "httpbody": dict(gen="MCHttpBody.tla", cfg={"quick": "httpbody_quick.cfg", "thorough": "httpbody_thorough.cfg"},
                      family="httpbody", trace="HttpBodyTrace.tla", tracecfg="HttpBodyTrace.cfg"),
+    "restfield": dict(gen="MCRestField.tla", cfg={"quick": "restfield.cfg", "thorough": "restfield.cfg"},
+                      family="restfield", trace="RestFieldTrace.tla", tracecfg="RestFieldTrace.cfg"),
     "stream_headers": dict(gen="MCStream.tla", cfg={"quick": "stream_headers_quick.cfg", "thorough": "stream_headers_thorough.cfg"},
                            family="stream", trace="StreamTrace.tla", tracecfg="StreamTrace.cfg"),
 }
@@ -62,13 +64,13 @@ CORPORA = {
 # Properties: which corpora decide them and which oracle conjuncts (tags) are theirs.
 # ---------------------------------------------------------------------------
 PROPS = {
-    "C01": dict(corpora=["stream_matrix", "stream_faults", "restbind", "httpbody"], prefix="C01."),
+    "C01": dict(corpora=["stream_matrix", "stream_faults", "restbind", "httpbody", "restfield"], prefix="C01."),
     "C02": dict(corpora=["stream_matrix", "stream_headers"], prefix="C02."),
     "C03": dict(corpora=["stream_matrix", "stream_errors", "stream_faults", "stream_hostile", "httpbody"], prefix="C03."),
     "C04": dict(corpora=["stream_errors", "stream_hostile"], prefix="C04."),
     "C05": dict(corpora=["stream_headers", "stream_errors"], prefix="C05."),
     "C06": dict(corpora=["router"], prefix="C06."),
-    "C07": dict(corpora=["restbind", "httpbody"], prefix="C07."),
+    "C07": dict(corpora=["restbind", "httpbody", "restfield"], prefix="C07."),
     "C08": dict(corpora=["stream_chunks"], prefix="C08.",
                 design=[("MCFraming.tla", "framing_%s_fixed.cfg" % p) for p in ("R1", "R2", "R3", "R4", "R5", "R5e")] +
                        [("MCFramingW.tla", "framingw_%s.cfg" % p) for p in ("W1_reframe", "W2_reframe_trailer", "W3_strip",
